@@ -2,7 +2,7 @@ SPECIFICATION Spec
 CONSTANTS
   W = 1
   Pools <- PoolsThorough
-  MaxB = 40
+  MaxB = 30
 INVARIANT Inv
 PROPERTY NonIncreasing
 CHECK_DEADLOCK FALSE
